@@ -294,6 +294,11 @@ class C15:
             cases.append(tomo(n, gates, inp=[rng.randint(0, 1) if rng.random() < 0.3 else 0 for _ in range(n)],
                               via=via, perm=rng.randrange(10**6) if rng.random() < 0.35 else None,
                               drop_zero=rng.random() < 0.4))
+        # base circuits with a heralded ancilla BETWEEN the two rails of a qubit (oracle only): the shared basis-change
+        # circuits are then added across an ancilla; they, and the base circuit, must stay untouched, and a later
+        # tomography of an ordinary circuit must still work
+        for _ in range(3 if quick else 25):
+            cases.append(dict(kind="anc", n=1, seed=rng.randrange(10**9)))
         # synthetic Born-rule data of random (mixed) density matrices
         n_syn = 10 if quick else 150
         for k in range(n_syn):
@@ -357,6 +362,8 @@ class C15:
                     "tables": [mm, pm, tm, tmr, rq, mp]}
         if k == "init":
             return self._impl_init(c)
+        if k == "anc":
+            return self._impl_anc(c)
         n = c["n"]
         aux = {"problems": []}
         twice = k == "tomo" and c.get("twice") and len(c["gates"]) >= 1
@@ -468,6 +475,54 @@ class C15:
                     aux["problems"].append(f"fidelity raised {type(e).__name__}: {e}")
         return {"res": res, "aux": aux}
 
+    def _impl_anc(self, c):
+        r = random.Random(c["seed"])
+        th, ph = r.uniform(0.2, 1.4), r.uniform(0, 6.2)
+        u2 = np.array([[np.cos(th), -np.exp(1j * ph) * np.sin(th)], [np.exp(-1j * ph) * np.sin(th), np.cos(th)]])
+        u3 = np.eye(3, dtype=complex)
+        for a, i in enumerate((0, 2)):
+            for b, j in enumerate((0, 2)):
+                u3[i, j] = u2[a, b]
+        problems = []
+
+        def tomo_of(base, psi):
+            before = snapshot(base)
+
+            def experiment(circuits):
+                out = []
+                for circ in circuits:
+                    items = noiseless_counts(circ, 1, [1, 0], "sim", r, False)
+                    out.append({State(list(st)): v for st, v in items})
+                return out
+            try:
+                rho = np.array(StateTomography(1, base, experiment).process())
+            except Exception as e:  # noqa: BLE001
+                return f"process() raised {type(e).__name__}: {e}"
+            if not snap_equal(before, snapshot(base)):
+                return "base circuit changed by process()"
+            ref = np.outer(psi, psi.conj())
+            if np.abs(rho - ref).max() > 1e-6:
+                return f"rho differs from the prepared state by {np.abs(rho - ref).max():.3g}"
+            return None
+
+        sub = lw.Unitary(u3)
+        sub.herald(0, 1)
+        base = lw.Circuit(2)
+        base.add(sub, 0)
+        maps0 = {k_: (g.n_modes, np.array(g.U_full).tobytes()) for k_, g in _maps.MEASUREMENT_MAPPING.items()}
+        m = tomo_of(base, u2[:, 0])
+        if m:
+            problems.append("ancilla between the rails: " + m)
+        if {k_: (g.n_modes, np.array(g.U_full).tobytes()) for k_, g in _maps.MEASUREMENT_MAPPING.items()} != maps0:
+            problems.append("a shared basis-change circuit of MEASUREMENT_MAPPING was modified by the tomography")
+        plain = lw.Circuit(2)
+        plain.add(qubit.H(), 0)
+        plain.add(qubit.S(), 0)
+        m = tomo_of(plain, np.array([1, 1j]) / np.sqrt(2))
+        if m:
+            problems.append("ordinary circuit afterwards: " + m)
+        return {"res": {"ok": []}, "aux": {"problems": problems}}
+
     def _impl_init(self, c):
         def fn(circuits):
             return []
@@ -494,6 +549,8 @@ class C15:
         k = c["kind"]
         if k == "static":
             return "run_c15_static"
+        if k == "anc":
+            return "SL nil"
         if k == "init":
             nq = c["nq"]
             is_int = isinstance(nq, int) and not isinstance(nq, bool)
@@ -518,11 +575,15 @@ class C15:
             pm = [[[q2(e) for e in row] for row in m] for m in sx[1]]
             rq = [sorted(l) for l in sx[4]]
             return {"keys": [["X", "Y", "Z", "I"], ["I", "X", "Y", "Z"]], "tables": [mm, pm, sx[2], sx[3], rq, sx[5]]}
+        if k == "anc":
+            return None
         if k == "init":
             return {"res": decode_res(sx)}
         return {"res": decode_res(sx, lambda m: [[[core.unscale(e[0]), core.unscale(e[1])] for e in row] for row in m])}
 
     def compare(self, c, a, b):
+        if c["kind"] == "anc":
+            return None
         if c["kind"] == "static":
             return core.approx_equal(a, b, tol=1e-9)
         return core.approx_equal(a["res"], b["res"], tol=1e-9)
@@ -543,6 +604,8 @@ class C15:
         aux, res = obs["aux"], obs["res"]
         if aux["problems"]:
             return "; ".join(aux["problems"][:3])
+        if k == "anc":
+            return None
         want = sorted(",".join(t) for t in itertools.product("XYZ", repeat=n))
         if aux["n_circuits"] != 3**n or aux["settings"] != want:
             return f"callback received {aux['n_circuits']} circuits with settings {aux['settings'][:6]}.. (expected one per setting, {3**n})"
@@ -579,7 +642,7 @@ class C15:
     def nontrivial(self, c, obs):
         if c["kind"] in ("tomo", "synthetic", "counts"):
             return obs["aux"]["n_circuits"] >= 3
-        return c["kind"] == "static"
+        return c["kind"] in ("static", "anc")
 
     def stats(self, cases, recs):
         from collections import Counter
